@@ -17,7 +17,10 @@ EXPLANATION = (
     "written in place, by any entry point. (R18.2) MAB.arms references a fresh copy. (R18.3) the isinstance "
     "alternatives accepted by the validators equal the ones handled by the converters, every converter chain "
     "ends in raise, and every converter return is identity-on-C-contiguous / .values / np.asarray(order='C'). "
-    "(R18.4) no converter / validator branch reads an attribute its implementor cannot have. Estimators built "
+    "(R18.4) no converter / validator branch reads an attribute its implementor cannot have. (R18.5) the number "
+    "of features of a Series is taken from the column dimension. (R18.6) on the traces no data of a call are cast "
+    "to a dtype whose value depends on bandit state (a stored int / fixed-width string history would otherwise "
+    "truncate later batches). Estimators built "
     "with copy=False / copy_x=False are modelled as writing into their operand. "
     "Decides 'no caller object can be mutated' and 'no accepted container type is left unconverted'; value "
     "equality across container types is numerical and not decided.")
